@@ -516,6 +516,7 @@ def Exact (h : HSt) : Prop := ∀ w b r, HasEdge h.sys.edges w b r ↔ Ref h w b
 structure Good (h : HSt) : Prop where
   kinv : ∀ op, Kinv h.sys op
   exact : Exact h
+  keys : (h.sys.edges.map (·.1)).Nodup      -- `edges` is a dict: one entry per waiter
 
 theorem any_false {α : Type} {l : List α} {p : α → Bool} (h : l.any p = false) : ∀ e ∈ l, p e = false := by
   intro e he
@@ -527,11 +528,11 @@ theorem good_step {h : HSt} (hg : Good h) (op : HOp) (ht : trig h op = false) (h
   cases op with
   | start o p =>
     have hfr : h.sys.ctx? o = none := by simpa [freshOk] using hf
-    refine ⟨fun op' => kinv_start_fresh hfr hg.kinv p op', ?_⟩
+    have he : (h.sys.start o p).1.edges = h.sys.edges := by unfold Sys.start; simp only; split <;> rfl
+    refine ⟨fun op' => kinv_start_fresh hfr hg.kinv p op', ?_, by simp only [hstep]; rw [he]; exact hg.keys⟩
     intro w b r
     have hs : ∀ x y, Owns (h.sys.start o p).1 x y ↔ Owns h.sys x y := by
       intro x y; unfold Sys.start; simp only; split <;> exact Iff.rfl
-    have he : (h.sys.start o p).1.edges = h.sys.edges := by unfold Sys.start; simp only; split <;> rfl
     simp only [hstep, Ref]
     rw [he, hs]
     exact hg.exact w b r
@@ -545,7 +546,7 @@ theorem good_step {h : HSt} (hg : Good h) (op : HOp) (ht : trig h op = false) (h
       have hfin := finish_finStep h.sys c
       have hfree := finish_frees (s := h.sys) (c := c) (by rw [hcid]; exact (hg.kinv o).listed c hcm hcid)
       rw [hcid] at hfin hfree
-      refine ⟨fun op' => ?_, ?_⟩
+      refine ⟨fun op' => ?_, ?_, hfin.keys hg.keys⟩
       · have := kinv_abortById (hg.kinv op') o
         unfold abortById at this
         rw [hc] at this
@@ -567,8 +568,8 @@ theorem good_step {h : HSt} (hg : Good h) (op : HOp) (ht : trig h op = false) (h
     | some c =>
       simp only
       obtain ⟨hcm, hcid⟩ := ctx?_some hc
-      refine ⟨fun op' => kinv_release_all hcm hg.kinv r op', ?_⟩
       have hrel := (release_relStep h.sys c r).1
+      refine ⟨fun op' => kinv_release_all hcm hg.kinv r op', ?_, hrel.keys hg.keys⟩
       by_cases hown : r ∈ c.acquired ∧ Owns h.sys c.id r
       · -- the release succeeds: no trigger means nobody's pending wait is affected
         have hres : (release h.sys c r).2.2 = true := by
@@ -628,7 +629,7 @@ theorem good_step {h : HSt} (hg : Good h) (op : HOp) (ht : trig h op = false) (h
         · -- BLOCKED: one true edge is added on both sides
           rw [acquire_blocked hl hres] at hkall ⊢
           simp only
-          refine ⟨hkall, ?_⟩
+          refine ⟨hkall, ?_, keys_addDep_nodup _ _ _ hg.keys⟩
           obtain ⟨_, hne, hnn⟩ := tryAcquire_blocked hres
           have hb : l.owner = some (l.owner.getD 0) := by
             cases ho : l.owner with
@@ -667,11 +668,13 @@ theorem good_step {h : HSt} (hg : Good h) (op : HOp) (ht : trig h op = false) (h
             intro w b x
             rw [acquire_ok hl hres, ← hcid]; exact hasEdge_removeAllFor
           have howns := owns_acquire_ok hl hres
+          have hkeys : ((acquire h.sys c r).1.edges.map (·.1)).Nodup := by
+            rw [acquire_ok hl hres]; exact keys_removeAllFor_nodup c.id hg.keys
           simp only [trig, hc] at ht
-          generalize hq : acquire h.sys c r = q at ht hres' hedges howns hkall
+          generalize hq : acquire h.sys c r = q at ht hres' hedges howns hkall hkeys
           obtain ⟨s', c', res⟩ := q
           obtain ⟨res0, hr0, hnb⟩ := hres'
-          simp only at hr0 hedges howns hkall
+          simp only at hr0 hedges howns hkall hkeys
           subst hr0
           have ht' : (h.pend.any (fun e => e.1 = o && e.2 ≠ r) ||
               h.pend.any (fun e => e.1 ≠ o && ownerOf h.sys e.2 = some o) ||
@@ -686,7 +689,7 @@ theorem good_step {h : HSt} (hg : Good h) (op : HOp) (ht : trig h op = false) (h
           have ht2 := any_false ht'.1.2
           have ht3 := any_false ht'.2
           have hfinal : Good { sys := s', pend := h.pend.filter (fun e => e ≠ (o, r)) } := by
-            refine ⟨hkall, ?_⟩
+            refine ⟨hkall, ?_, hkeys⟩
             intro w b x
             rw [hedges]
             simp only [Ref, List.mem_filter, decide_eq_true_eq]
@@ -774,5 +777,47 @@ theorem kinv_run : ∀ (ops : List HOp) {h : HSt}, (∀ op, Kinv h.sys op) → F
     unfold hrun
     simp only [List.foldl_cons]
     exact kinv_run ops (kinv_step hk op hf.1) hf.2
+
+/-! ### with one entry per waiter, the DFS sees every recorded edge -/
+
+theorem entry_unique : ∀ {E : Edges}, (E.map (·.1)).Nodup → ∀ {e e' : Nat × List (Nat × Nat)},
+    e ∈ E → e' ∈ E → e.1 = e'.1 → e = e'
+  | [], _, _, _, h, _, _ => by cases h
+  | x :: xs, hn, e, e', he, he', hk => by
+    simp only [List.map_cons, List.nodup_cons] at hn
+    rcases List.mem_cons.mp he with rfl | he1
+    · rcases List.mem_cons.mp he' with rfl | he2
+      · rfl
+      · exact absurd (List.mem_map.mpr ⟨e', he2, hk.symm⟩) hn.1
+    · rcases List.mem_cons.mp he' with rfl | he2
+      · exact absurd (List.mem_map.mpr ⟨e, he1, hk⟩) hn.1
+      · exact entry_unique hn.2 he1 he2 hk
+
+theorem hasEdge_edge {E : Edges} (hn : (E.map (·.1)).Nodup) {a b r : Nat} (h : HasEdge E a b r) : Edge E a b := by
+  obtain ⟨e, he, hea, hm⟩ := h
+  unfold Edge nexts succs
+  cases hf : E.find? (fun e => e.1 = a) with
+  | none =>
+    have := List.find?_eq_none.mp hf e he
+    simp [hea] at this
+  | some e' =>
+    have hm' := List.mem_of_find?_eq_some hf
+    have he' : e'.1 = a := by simpa using List.find?_some hf
+    have : e = e' := entry_unique hn he hm' (hea.trans he'.symm)
+    subst this
+    simp only
+    exact List.mem_map.mpr ⟨(b, r), hm, rfl⟩
+
+/-- consecutive elements related by `R` -/
+def ChainR (R : Nat → Nat → Prop) : List Nat → Prop
+  | [] => True
+  | [_] => True
+  | a :: b :: rest => R a b ∧ ChainR R (b :: rest)
+
+theorem chain_of_chainR {E : Edges} {R : Nat → Nat → Prop} (h : ∀ a b, R a b → Edge E a b) :
+    ∀ (l : List Nat), ChainR R l → Chain E l
+  | [], _ => trivial
+  | [_], _ => trivial
+  | a :: b :: rest, hc => ⟨h a b hc.1, chain_of_chainR h (b :: rest) hc.2⟩
 
 end Operon.Coord
